@@ -61,8 +61,10 @@ class AffineConvFusion(_ConvAffineFusionBase):
         offset: ir.Value,
         conv_out: ir.Value,
     ) -> ir.Value:
-        scale_value = scale.const_value.numpy()
-        offset_value = offset.const_value.numpy()
+        # scale and offset hold a single element (see check): use them as scalars so
+        # that shapes such as [1, 1, 1] do not change the rank of the new weight/bias
+        scale_value = scale.const_value.numpy().reshape(())
+        offset_value = offset.const_value.numpy().reshape(())
         w_value = w.const_value.numpy()
         b_value = b.const_value.numpy()
         scaled_w_value = op.initializer(ir.tensor(w_value * scale_value), w.name + "_scaled")
@@ -93,8 +95,8 @@ class ConvAffineFusion(_ConvAffineFusionBase):
         offset: ir.Value,
         conv_out: ir.Value,
     ) -> ir.Value:
-        scale_value = scale.const_value.numpy()
-        offset_value = offset.const_value.numpy()
+        scale_value = scale.const_value.numpy().reshape(())
+        offset_value = offset.const_value.numpy().reshape(())
         w_value = w.const_value.numpy()
         b_value = b.const_value.numpy()
         scaled_w_weight = op.initializer(ir.tensor(w_value * scale_value), w.name + "_scaled")
